@@ -5,7 +5,7 @@
 From Coq Require Import String List Morphisms.
 Require Import SC3.proofs.NumTac SC3.gen.Gen_builtins SC3.proofs.C12_num SC3.model.TaskQ SC3.model.Event.
 Require Import SC3.proofs.C09_order SC3.proofs.C14_keys SC3.proofs.C14_play SC3.proofs.C14_stream SC3.proofs.C14_pdur.
-Require Import SC3.proofs.C14_ppar SC3.proofs.C14_merge SC3.proofs.C14_mergethm SC3.proofs.C14_parfinal SC3.proofs.C14_ctl SC3.proofs.C14_embed SC3.proofs.C14_open SC3.proofs.C14_actions.
+Require Import SC3.proofs.C14_ppar SC3.proofs.C14_merge SC3.proofs.C14_mergethm SC3.proofs.C14_parfinal SC3.proofs.C14_ctl SC3.proofs.C14_embed SC3.proofs.C14_open SC3.proofs.C14_actions SC3.proofs.C14_pdurq SC3.proofs.C15_kernels.
 Require Import SC3.gen.Gen_proto.
 Open Scope list_scope.
 From Coq Require Import Sorting.
@@ -178,6 +178,24 @@ Theorem pdur_short_child : forall c K lib, fix_pdur_event c = true -> fix_pdur_i
   (forall j, (j < List.length child)%nat -> qsum (firstn (S j) (map (cdelta K) child)) + toQ tolerance <= dq) ->
   stream_run c K lib fuel (S dep) (SDur (F 0) d s) inev mc = map as_event child.
 Proof. exact pdur_short_child_l. Qed.
+
+(* Pdur's other constructor arguments.  With the defaults (tolerance 0.001, quant None) the general loop is the Pdur of
+   the theorems above; with quant given and a child that ends early at elapsed x (repaired code) the stream is padded with
+   exactly one rest up to the NEXT multiple of quant at or after x -- none when x is on the grid -- so the total duration
+   lies on the quant grid and is never shortened *)
+Theorem pdurq_default : forall c K lib fuel dep el d s inev mc,
+  stream_run c K lib fuel (S dep) (SDurQ el d tolerance None s) inev mc
+  = stream_run c K lib fuel (S dep) (SDur el d s) inev mc.
+Proof. exact pdurq_default_l. Qed.
+
+Theorem pdurq_pad : forall c K lib, fix_pdur_pad c = true ->
+  forall dep elapsed d tol q s inev mc o rt mc' x qq,
+  snext c K lib dep s inev mc = (RStop o rt, mc') -> val elapsed x -> val q qq -> 0 < qq ->
+  exists r, multiple_of r qq /\ x <= r /\ r < x + qq /\
+    (x < r -> exists e, snext c K lib (S dep) (SDurQ elapsed d tol (Some q) s) inev mc = (RYield e (SDurEnd SDone) o, mc') /\
+                        delta_q K e == r - x /\ is_rest e = true) /\
+    (r == x -> snext c K lib (S dep) (SDurQ elapsed d tol (Some q) s) inev mc = (RStop o inev, mc')).
+Proof. exact pdurq_pad_l. Qed.
 
 (* player o Pdur: event k of Pdur(d, child) is played at start + the sum of the CHILD's own k preceding deltas, and,
    unless it is the last (cut) one, it is the child's k-th event *)
